@@ -280,6 +280,28 @@ def run_case(case):
             res.violate("C09", "C09/hidden-state:simulate-changed-model-configuration:%s" % cls_prm,
                         "simulate() changed the model parameter %s: %r -> %r" % (k, before[k], after.get(k)))
             break
+    # (g) the user changes parameters of an already simulated model and simulates again: the result must be
+    # that of a fresh model built with the new values (nothing remembered from before the edit)
+    if case["i"] % 2 == 1:
+        import random as _random
+        from . import edits as E
+        er = _random.Random(case["i"] * 7919 + 13)
+        I.set_order(I.default_order(spec))
+        me = B.build(spec)
+        with warnings.catch_warnings():
+            warnings.simplefilter("ignore")
+            try:
+                me.project.simulate(**sim_kwargs(spec))
+                spec2, what = E.edit(er, spec, me)
+                me.project.simulate(**sim_kwargs(spec2))
+                d_edit = B.dump(me.project)
+            except Exception as e:
+                d_edit = dict(error=exc_info(e)["type"] + "@" + exc_info(e)["where"])
+                spec2, what = None, []
+        if spec2 is not None:
+            mf, d_fresh = run_dump(spec2, I.default_order(spec2))
+            res.count("C09.edit_and_resimulate_runs")
+            compare(res, d_fresh, d_edit, "C09/simulate-after-model-edit-differs", "model edited in place (%s) and simulated again vs a fresh model with the same values" % "; ".join(what))
     # (d) simulate() called again on the same object
     I.set_order(I.default_order(spec))
     with warnings.catch_warnings():
